@@ -336,7 +336,12 @@ pub trait Subject: BitVector + Send + Sync + 'static {
     /// `Self::try_from(x)` / `Self::try_from(&x)` (for Bvd/Bv: the infallible `From`).
     fn from_nat(n: Nat, by_ref: bool) -> Result<Self, ConvertionError>;
     /// `Self::try_from(&[J])` / `Self::from(&[J])`.
-    fn from_slice(ty: NatTy, items: &[u128]) -> Result<Self, ConvertionError>;
+    fn from_slice(ty: NatTy, items: &[u128]) -> Result<Self, ConvertionError> {
+        Self::from_slice_skewed(ty, items, 0)
+    }
+    /// Like `from_slice`, but the slice handed to the library starts `skew` elements into a
+    /// larger buffer (so it is not aligned like a fresh allocation).
+    fn from_slice_skewed(ty: NatTy, items: &[u128], skew: usize) -> Result<Self, ConvertionError>;
     /// `reserve(k)`; false if the type has no such method (fixed).
     fn reserve_x(&mut self, k: usize) -> bool;
     /// `shrink_to_fit()`; false if the type has no such method (fixed).
@@ -396,14 +401,14 @@ macro_rules! to_nat_body {
 }
 
 macro_rules! slice_body {
-    ($ty:ident, $items:ident, $conv:expr) => {
+    ($ty:ident, $items:ident, $skew:ident, $conv:expr) => {
         match $ty {
-            NatTy::U8 => { let v: Vec<u8> = $items.iter().map(|&x| x as u8).collect(); let s: &[u8] = &v; $conv(s) }
-            NatTy::U16 => { let v: Vec<u16> = $items.iter().map(|&x| x as u16).collect(); let s: &[u16] = &v; $conv(s) }
-            NatTy::U32 => { let v: Vec<u32> = $items.iter().map(|&x| x as u32).collect(); let s: &[u32] = &v; $conv(s) }
-            NatTy::U64 => { let v: Vec<u64> = $items.iter().map(|&x| x as u64).collect(); let s: &[u64] = &v; $conv(s) }
-            NatTy::U128 => { let v: Vec<u128> = $items.iter().map(|&x| x).collect(); let s: &[u128] = &v; $conv(s) }
-            NatTy::Usize => { let v: Vec<usize> = $items.iter().map(|&x| x as usize).collect(); let s: &[usize] = &v; $conv(s) }
+            NatTy::U8 => { let v: Vec<u8> = std::iter::repeat(0x5a as u8).take($skew).chain($items.iter().map(|&x| x as u8)).collect(); let s: &[u8] = &v[$skew..]; $conv(s) }
+            NatTy::U16 => { let v: Vec<u16> = std::iter::repeat(0x5a as u16).take($skew).chain($items.iter().map(|&x| x as u16)).collect(); let s: &[u16] = &v[$skew..]; $conv(s) }
+            NatTy::U32 => { let v: Vec<u32> = std::iter::repeat(0x5a as u32).take($skew).chain($items.iter().map(|&x| x as u32)).collect(); let s: &[u32] = &v[$skew..]; $conv(s) }
+            NatTy::U64 => { let v: Vec<u64> = std::iter::repeat(0x5a as u64).take($skew).chain($items.iter().map(|&x| x as u64)).collect(); let s: &[u64] = &v[$skew..]; $conv(s) }
+            NatTy::U128 => { let v: Vec<u128> = std::iter::repeat(0x5au128).take($skew).chain($items.iter().map(|&x| x)).collect(); let s: &[u128] = &v[$skew..]; $conv(s) }
+            NatTy::Usize => { let v: Vec<usize> = std::iter::repeat(0x5a as usize).take($skew).chain($items.iter().map(|&x| x as usize)).collect(); let s: &[usize] = &v[$skew..]; $conv(s) }
         }
     };
 }
@@ -424,8 +429,8 @@ macro_rules! impl_subject_fixed {
                     $crate::nat_match!(n, k => <$T>::try_from(k))
                 }
             }
-            fn from_slice(ty: NatTy, items: &[u128]) -> Result<Self, ConvertionError> {
-                slice_body!(ty, items, <$T>::try_from)
+            fn from_slice_skewed(ty: NatTy, items: &[u128], skew: usize) -> Result<Self, ConvertionError> {
+                slice_body!(ty, items, skew, <$T>::try_from)
             }
             fn reserve_x(&mut self, _k: usize) -> bool { false }
             fn shrink_x(&mut self) -> bool { false }
@@ -474,8 +479,8 @@ impl Subject for Bvd {
             nat_match!(n, k => Ok(Bvd::from(k)))
         }
     }
-    fn from_slice(ty: NatTy, items: &[u128]) -> Result<Self, ConvertionError> {
-        Ok(slice_body!(ty, items, Bvd::from))
+    fn from_slice_skewed(ty: NatTy, items: &[u128], skew: usize) -> Result<Self, ConvertionError> {
+        Ok(slice_body!(ty, items, skew, Bvd::from))
     }
     fn reserve_x(&mut self, k: usize) -> bool { self.reserve(k); true }
     fn shrink_x(&mut self) -> bool { self.shrink_to_fit(); true }
@@ -515,8 +520,8 @@ impl Subject for Bv {
             nat_match!(n, k => Ok(Bv::from(k)))
         }
     }
-    fn from_slice(ty: NatTy, items: &[u128]) -> Result<Self, ConvertionError> {
-        Ok(slice_body!(ty, items, Bv::from))
+    fn from_slice_skewed(ty: NatTy, items: &[u128], skew: usize) -> Result<Self, ConvertionError> {
+        Ok(slice_body!(ty, items, skew, Bv::from))
     }
     fn reserve_x(&mut self, k: usize) -> bool { self.reserve(k); true }
     fn shrink_x(&mut self) -> bool { self.shrink_to_fit(); true }
